@@ -18,6 +18,7 @@ package newton
 
 /* -------------------------------------------------------------------------- */
 
+import "github.com/pbenner/autodiff/verifhook"
 import   "fmt"
 import   "math"
 
@@ -173,6 +174,7 @@ func newton_root(f objective_root, x ConstVector,
   t2 := inSitu.T2
 
   for i := 0; i < maxIterations.Value; i++ {
+    verifhook.Tick("newton.root.iter")
     // execute hook if available
     if hook.Value != nil && hook.Value(x1, J, y) {
       break
@@ -192,6 +194,7 @@ func newton_root(f objective_root, x ConstVector,
     // this is a simplified line search that tries to
     // satisfy the constraints
     for {
+      verifhook.Tick("newton.root.constraints")
       x2.VsubV(x1, t1)
       if Vequals(x1, x2) {
         return x1, fmt.Errorf("line search failed")
@@ -275,6 +278,7 @@ func newton_min(
   }
 
   for i := 0; i < maxIterations.Value; i++ {
+    verifhook.Tick("newton.min.iter")
     // execute hook if available
     if hook.Value != nil && hook.Value(x1, g, H, y1) {
       break
@@ -305,6 +309,7 @@ func newton_min(
       }
     } else {
       for {
+        verifhook.Tick("newton.min.constraints")
         x2.VsubV(x1, t1)
         if Vequals(x1, x2) {
           return x1, fmt.Errorf("line search failed")
